@@ -96,6 +96,15 @@ func runConcFactory(c *concCase) {
 		recs[p] = rec
 		s.Close()
 	}
+	// one schedule in three starts from a rotated hierarchy: the system key every warm-up intermediate key hangs under is revoked,
+	// so the first Encrypt of each partition takes the "latest IK valid, parent SK invalid" path while others still decrypt old
+	// records through that system key
+	if c.Seed%3 == 0 {
+		if rsk := x.ms.Latest("_SK_svc_prod"); rsk != nil {
+			x.ms.Revoke("_SK_svc_prod", rsk.Created)
+			x.do(EnvOp{K: "advance", D: pol.RCI + 1}) // cached copies are stale now: the next use re-reads the flag
+		}
+	}
 	x.tr.Take()
 	var vs violations
 	var ops int64
